@@ -284,7 +284,8 @@ def opCHUNK (args obs : List String) : Option DecOut :=
       let obs := obs.filter (· ≠ "unstable")
       let go := " ".intercalate obs
       let f10 := (if go.startsWith "panic" || go.startsWith "hang" then ["C10 " ++ go] else []) ++
-        (if unstable then ["C07 the string GetChunk returned changed after a later GetChunk call", "C11 the string GetChunk returned changed after a later GetChunk call"] else [])
+        (if unstable then ["C07 the string GetChunk returned changed after a later GetChunk call", "C11 the string GetChunk returned changed after a later GetChunk call",
+          "C04 the chunk id a RawMessage send waits for (GetChunk's result) changed after a later GetChunk call"] else [])
       let (wf, f11) := match parse b with
         | some (o, []) =>
           if wellFormedMode o then
@@ -386,7 +387,7 @@ def opHIST (op : String) (args obs : List String) : Option DecOut :=
               let corr := match menc with
                 | some mb => if mb == s && o == s!"O({sizeOpt},-,-)" then none else some s!"model str={toHex mb} opt=O({sizeOpt},-,-)"
                 | none => some "model=err"
-              mk corr ((if streamIsEntries es s then [] else ["C03 event stream is not the concatenation of the entries"]) ++
+              mk corr ((if streamIsEntries es s then [] else ["C03 event stream is not the concatenation of the entries", "C01 packed message does not carry exactly the given entries"]) ++
                        (if o == s!"O({sizeOpt},-,-)" then [] else ["C03 size option is not the number of entries"])) s!"{es.length}"
             | _, _ => none
           else
@@ -396,7 +397,7 @@ def opHIST (op : String) (args obs : List String) : Option DecOut :=
                 | some mb => if mb == p then none else some s!"model payload={toHex mb}"
                 | none => some "model=err"
               mk corr ((if rest == "0" && comp == "true" then [] else ["C03 not exactly one complete gzip member"]) ++
-                       (if streamIsEntries es p then [] else ["C03 decompressed stream is not the concatenation of the entries"]) ++
+                       (if streamIsEntries es p then [] else ["C03 decompressed stream is not the concatenation of the entries", "C01 compressed message does not carry exactly the given entries"]) ++
                        (if o == s!"O({sizeOpt},-,677a6970)" then [] else ["C03 options are not size + compressed=gzip"])) s!"{es.length}"
             | _, _, _, _ => none
     | _ => none
@@ -431,7 +432,7 @@ def opHIST (op : String) (args obs : List String) : Option DecOut :=
           match parseHex hx with
           | some s =>
             mk (if menc == some s then none else some "MP bytes differ")
-              (if streamIsEntries es s then [] else ["C03 packed bytes are not the concatenation of the entries"]) s!"{es.length}"
+              (if streamIsEntries es s then [] else ["C03 packed bytes are not the concatenation of the entries", "C01 MarshalPacked output does not carry exactly the given entries"]) s!"{es.length}"
           | none => none
         | _ => none
     | _ => none
